@@ -47,55 +47,145 @@ theorem f_names_predictable (sc : Scope) (r : Rec) :
 
 /-! ## (a) counts -/
 
+theorem templateClones_length (o : Rec) (w : Wrap) : ∀ (l : List TInst) (i : Nat),
+    (templateClones o w i l).length = l.length := by
+  intro l
+  induction l with
+  | nil => intro _; rfl
+  | cons t ts ih => intro i; simp [templateClones, ih]
+
+theorem templateClones_fields (o : Rec) (w : Wrap) : ∀ (l : List TInst) (i : Nat),
+    ∀ c ∈ templateClones o w i l, c.wrap = w ∧ c.hasBuf = o.hasBuf ∧ c.generics = o.generics := by
+  intro l
+  induction l with
+  | nil => intro _ c h; simp [templateClones] at h
+  | cons t ts ih =>
+    intro i c h
+    simp only [templateClones, List.mem_cons] at h
+    rcases h with rfl | h
+    · exact ⟨rfl, rfl, rfl⟩
+    · exact ih _ c h
+
+theorem numberVariants_length : ∀ (l : List Rec) (i : Nat), (numberVariants i l).length = l.length := by
+  intro l
+  induction l with
+  | nil => intro _; rfl
+  | cons r l ih => intro i; simp [numberVariants, ih]
+
+theorem numberVariants_map (g : Rec → Nat) (hg : ∀ r s, g { r with sfx := s } = g r) :
+    ∀ (l : List Rec) (i : Nat), (numberVariants i l).map g = l.map g := by
+  intro l
+  induction l with
+  | nil => intro _; rfl
+  | cons r l ih =>
+    intro i
+    simp only [numberVariants, List.map_cons, ih]
+    split <;> simp [hg]
+
+theorem variants_length (f : Fn) (c : Rec) : (variants f c).length = f.ndefaults + 1 := by
+  simp [variants, numberVariants_length]
+
+theorem sum_flatMap_const (g : Rec → List Rec) (w : Rec → Nat) (m : Nat) (l : List Rec)
+    (h : ∀ c ∈ l, ((g c).map w).sum = m) : ((l.flatMap g).map w).sum = l.length * m := by
+  induction l with
+  | nil => simp
+  | cons c l ih =>
+    rw [List.flatMap_cons, List.map_append, List.sum_append, h c (by simp),
+      ih (fun x hx => h x (by simp [hx])), List.length_cons, Nat.add_mul]
+    omega
+
+/-- Weights that only look at the C/Fortran wrap flags, the bufferify flag and the generic
+    list are the same for an instantiated clone and all its default-argument variants. -/
+theorem variants_sum (g : Rec → Nat) (hs : ∀ r s, g { r with sfx := s } = g r)
+    (hv : ∀ f c k, g (variantClone f c k) = g c) (hl : ∀ f c, g (variantLast f c) = g c)
+    (f : Fn) (c : Rec) : ((variants f c).map g).sum = (f.ndefaults + 1) * g c := by
+  unfold variants
+  rw [numberVariants_map g hs, List.map_append, List.sum_append, List.map_map,
+    sum_map_const (g ∘ variantClone f c) (g c) _ (by intro k _; exact hv f c k)]
+  simp [hl, Nat.add_mul]
+
+theorem cw_variantClone (f : Fn) (c : Rec) (k : Nat) : cw (variantClone f c k) = cw c := by
+  simp [cw, variantClone]
+theorem cw_variantLast (f : Fn) (c : Rec) : cw (variantLast f c) = cw c := by
+  unfold variantLast; split <;> rfl
+theorem fw_variantClone (f : Fn) (c : Rec) (k : Nat) : fw (variantClone f c k) = fw c := by
+  simp [fw, variantClone]
+theorem fw_variantLast (f : Fn) (c : Rec) : fw (variantLast f c) = fw c := by
+  unfold variantLast; split <;> rfl
+
 /-- The first loop of `define_function_suffix` produces, for one declaration with `d`
-    trailing defaults and `t` instantiations, `d` clones, the declaration itself and `t`
-    template clones. -/
+    trailing defaults and `t` instantiations: `d` clones and the declaration; for a function
+    template the declaration and `t` clones, each with its `d` default-argument variants; for a
+    member that uses a class template parameter one more clone. -/
 theorem stage1Fn_length (sc : Scope) (f : Fn) :
-    (stage1Fn sc f).length = f.ndefaults + 1 + f.tinst.length := by
-  have h : ∀ (o : Rec) (w : Wrap) (l : List TInst) (i : Nat), (templateClones o w i l).length = l.length := by
-    intro o w l
-    induction l with
-    | nil => intro _; rfl
-    | cons t ts ih => intro i; simp [templateClones, ih]
+    (stage1Fn sc f).length
+      = if f.tinst.isEmpty then f.ndefaults + 1 + (if f.usesT then 1 else 0)
+        else 1 + f.tinst.length * (f.ndefaults + 1) := by
   unfold stage1Fn
-  split
-  · rename_i he
-    have : f.tinst = [] := by simpa using he
-    simp [this]
-  · simp [h]; omega
+  by_cases he : f.tinst.isEmpty = true
+  · by_cases hu : f.usesT = true <;> simp [he, hu]
+  · by_cases hd : f.ndefaults = 0
+    · simp [he, hd, templateClones_length]; omega
+    · simp only [he, hd, Bool.false_eq_true, ↓reduceIte, List.length_cons]
+      have : ∀ l : List Rec, (l.flatMap (variants f)).length = l.length * (f.ndefaults + 1) := by
+        intro l
+        induction l with
+        | nil => simp
+        | cons c l ih => rw [List.flatMap_cons, List.length_append, ih, variants_length,
+            List.length_cons, Nat.add_mul]; omega
+      rw [this, templateClones_length]; omega
 
 /-- Number of C entry points documented for one declaration: one per admissible number of
-    trailing defaulted arguments of the declaration (`d + 1`), or `d` + one per template
-    instantiation for a function template; doubled when a bufferify variant exists. -/
+    trailing defaulted arguments (`d + 1`), for each instantiation of a function template
+    (`t * (d + 1)`); doubled when a bufferify variant exists. -/
 def cCount (f : Fn) : Nat :=
-  (f.ndefaults + (if f.tinst.isEmpty then 1 else f.tinst.length)) * (if f.hasBuf then 2 else 1)
+  (if f.tinst.isEmpty then f.ndefaults + 1 else f.tinst.length * (f.ndefaults + 1))
+    * (if f.hasBuf then 2 else 1)
 
 /-- Number of Fortran specific procedures: one per C-level signature, or one per
     `fortran_generic` entry when such a list is given. -/
 def fCount (f : Fn) : Nat :=
-  (f.ndefaults + (if f.tinst.isEmpty then 1 else f.tinst.length))
+  (if f.tinst.isEmpty then f.ndefaults + 1 else f.tinst.length * (f.ndefaults + 1))
     * (if f.generics.isEmpty then 1 else f.generics.length)
 
+theorem stage1Fn_sum (sc : Scope) (f : Fn) (g : Rec → Nat) (K : Nat)
+    (hs : ∀ r s, g { r with sfx := s } = g r)
+    (hv : ∀ f c k, g (variantClone f c k) = g c) (hl : ∀ f c, g (variantLast f c) = g c)
+    (h0 : ∀ r : Rec, r.wrap = ⟨false, false, false, false⟩ → g r = 0)
+    (hdc : ∀ k, g (defaultClone sc f k) = K)
+    (ho : g (original sc f) = K)
+    (hu : g { original sc f with gen := .cxxTemplate, wrap := sc.w0 } = K)
+    (hc : ∀ c ∈ templateClones (f.base sc) sc.w0 0 f.tinst, g c = K) :
+    ((stage1Fn sc f).map g).sum
+      = (if f.tinst.isEmpty then f.ndefaults + 1 else f.tinst.length * (f.ndefaults + 1)) * K := by
+  unfold stage1Fn
+  by_cases he : f.tinst.isEmpty = true
+  · simp only [he, ↓reduceIte]
+    rw [List.map_append, List.sum_append, List.map_map,
+      sum_map_const (g ∘ defaultClone sc f) K _ (by intro k _; exact hdc k)]
+    by_cases hut : f.usesT = true
+    · simp [hut, hu, h0, Nat.add_mul]
+    · simp [hut, ho, Nat.add_mul]
+  · by_cases hd : f.ndefaults = 0
+    · simp only [he, hd, Bool.false_eq_true, ↓reduceIte, List.map_cons, List.sum_cons]
+      rw [h0 _ rfl, sum_map_const g K _ hc, templateClones_length]
+      simp
+    · simp only [he, hd, Bool.false_eq_true, ↓reduceIte, List.map_cons, List.sum_cons]
+      rw [h0 _ rfl, sum_flatMap_const (variants f) g ((f.ndefaults + 1) * K) _
+        (by intro c hcm; rw [variants_sum g hs hv hl, hc c hcm]), templateClones_length]
+      simp [Nat.mul_assoc]
 
 theorem stage1Fn_sum_cw (sc : Scope) (f : Fn) (hc : sc.w0.c = true) (hf : sc.w0.f = true) :
     ((stage1Fn sc f).map cw).sum = cCount f := by
-  have k1 : ∀ x ∈ (List.range f.ndefaults).map (defaultClone sc f),
-      cw x = if f.hasBuf then 2 else 1 := by
-    intro x hx
-    simp only [List.mem_map] at hx
-    obtain ⟨k, _, rfl⟩ := hx
-    simp [cw, defaultClone, Fn.base, hc, hf]
-  unfold stage1Fn cCount
-  rw [List.map_append, List.sum_append, List.map_map, ← List.map_map,
-    sum_map_const cw _ _ k1]
-  by_cases ht : f.tinst.isEmpty = true
-  · simp only [ht, ↓reduceIte]
-    simp [cw, original_wrap, original_hasBuf, hc, hf, Nat.add_mul]
-  · simp only [ht, Bool.false_eq_true, ↓reduceIte]
-    rw [List.map_cons, List.sum_cons,
-      templateClones_sum cw (if f.hasBuf then 2 else 1) (original sc f) sc.w0
-        (by intro t; simp [cw, original_hasBuf, hc, hf])]
-    simp [cw, Nat.add_mul]
+  unfold cCount
+  apply stage1Fn_sum sc f cw _ (by intro r s; rfl) cw_variantClone cw_variantLast
+  · intro r h; simp [cw, h]
+  · intro k; simp [cw, defaultClone, Fn.base, hc, hf]
+  · simp [cw, original_wrap, original_hasBuf, hc, hf]
+  · simp [cw, original_hasBuf, hc, hf]
+  · intro c hcm
+    obtain ⟨h1, h2, _⟩ := templateClones_fields _ _ _ _ c hcm
+    simp [cw, h1, h2, hc, hf, Fn.base]
 
 theorem stage1Fn_sum_fw (sc : Scope) (f : Fn) (hf : sc.w0.f = true) :
     ((stage1Fn sc f).map fw).sum = fCount f := by
@@ -103,23 +193,15 @@ theorem stage1Fn_sum_fw (sc : Scope) (f : Fn) (hf : sc.w0.f = true) :
     cases h : f.generics with
     | nil => rfl
     | cons a l => cases a <;> simp [genericSuffixes]
-  have k1 : ∀ x ∈ (List.range f.ndefaults).map (defaultClone sc f),
-      fw x = if f.generics.isEmpty then 1 else f.generics.length := by
-    intro x hx
-    simp only [List.mem_map] at hx
-    obtain ⟨k, _, rfl⟩ := hx
-    simp [fw, defaultClone, Fn.base, hg, genericSuffixes_length, hf]
-  unfold stage1Fn fCount
-  rw [List.map_append, List.sum_append, List.map_map, ← List.map_map,
-    sum_map_const fw _ _ k1]
-  by_cases ht : f.tinst.isEmpty = true
-  · simp only [ht, ↓reduceIte]
-    simp [fw, original_wrap, original_generics, hf, hg, genericSuffixes_length, Nat.add_mul]
-  · simp only [ht, Bool.false_eq_true, ↓reduceIte]
-    rw [List.map_cons, List.sum_cons,
-      templateClones_sum fw (if f.generics.isEmpty then 1 else f.generics.length) (original sc f) sc.w0
-        (by intro t; simp [fw, original_generics, hf, hg, genericSuffixes_length])]
-    simp [fw, Nat.add_mul]
+  unfold fCount
+  apply stage1Fn_sum sc f fw _ (by intro r s; rfl) fw_variantClone fw_variantLast
+  · intro r h; simp [fw, h]
+  · intro k; simp [fw, defaultClone, Fn.base, hg, genericSuffixes_length, hf]
+  · simp [fw, original_wrap, original_generics, hf, hg, genericSuffixes_length]
+  · simp [fw, original_generics, hf, hg, genericSuffixes_length]
+  · intro c hcm
+    obtain ⟨h1, _, h3⟩ := templateClones_fields _ _ _ _ c hcm
+    simp [fw, h1, h3, hf, Fn.base, hg, genericSuffixes_length]
 
 /-- **(a) count, C.**  With C and Fortran wrapping on, the expansion of a scope emits exactly
     the documented number of C entry points: for every declaration one per admissible number of
@@ -182,12 +264,12 @@ theorem fortran_names_distinct (sc : Scope) (fs : List Fn) (ok : CoreOK (fun w =
 /-! ### a non-trivial instance of the hypotheses, and the known ways to leave the domain -/
 
 def exScope : Scope :=
-  { cPrefix := "NM_".toList, cScope := "outer_".toList, fScope := [], derived := [], isClass := false,
+  { cPrefix := "NM_".toList, cScope := "outer_".toList, fScope := [], derived := [], isClass := false, tsfx0 := [],
     w0 := ⟨true, true, false, false⟩ }
 
 def exFn (name : String) (np nd : Nat) (sfx : Option String) : Fn :=
   { name := name.toList, nparams := np, ndefaults := nd, suffix := sfx.map String.toList, dsuffix := [],
-    tinst := [], generics := [], hasBuf := false, isCtor := false }
+    tinst := [], generics := [], hasBuf := false, isCtor := false, usesT := false }
 
 /-- two overloads of `fooBar` (one with two defaulted arguments, one with an explicit suffix), a
     function template with two instantiations and a single function -/
@@ -204,6 +286,17 @@ example : ((core exScope exFns).filter (fun r => r.wrap.c)).map (cName exScope)
     = ["NM_outer_foo_bar_0", "NM_outer_foo_bar_1", "NM_outer_foo_bar_2", "NM_outer_foo_bar_dbl",
        "NM_outer_tmpl_int", "NM_outer_tmpl_double", "NM_outer_get"].map String.toList := by
   decide +kernel
+
+/-- A function template with default arguments (after the repair of `define_function_suffix`):
+    every instantiation gets its default-argument variants, numbered per instantiation. -/
+def exTmplDefault : List Fn :=
+  [{ exFn "tmpl" 3 2 none with tinst := [⟨none, 1, "_int".toList⟩, ⟨none, 1, "_double".toList⟩] }]
+
+example : ((core exScope exTmplDefault).filter (fun r => r.wrap.c)).map (cName exScope)
+    = ["NM_outer_tmpl_0_int", "NM_outer_tmpl_1_int", "NM_outer_tmpl_2_int",
+       "NM_outer_tmpl_0_double", "NM_outer_tmpl_1_double", "NM_outer_tmpl_2_double"].map String.toList := by
+  decide +kernel
+example : CoreOK (fun w => w.c) (stage1 exScope exTmplDefault) := by constructor <;> decide +kernel
 
 /-- Outside the domain (DESIGN 2.3 #18): an explicit `function_suffix: _1` on one overload
     coincides with the automatic `_1` of another; two C functions get the same name. -/
@@ -477,7 +570,7 @@ example : (((expand exScope (exFns ++ [{ exFn "str" 2 1 none with hasBuf := true
 /-! ### across scopes -/
 
 theorem templateClones_name (o : Rec) (w : Wrap) : ∀ (l : List TInst) (i : Nat),
-    ∀ r ∈ templateClones o w i l, r.name = o.name := by
+    ∀ r ∈ templateClones o w i l, r.name = o.name ∧ r.isCtor = o.isCtor := by
   intro l
   induction l with
   | nil => intro _ r h; simp [templateClones] at h
@@ -485,49 +578,94 @@ theorem templateClones_name (o : Rec) (w : Wrap) : ∀ (l : List TInst) (i : Nat
     intro i r h
     simp only [templateClones, List.mem_cons] at h
     rcases h with rfl | h
-    · rfl
+    · exact ⟨rfl, rfl⟩
     · exact ih _ r h
 
-theorem original_name (sc : Scope) (f : Fn) : (original sc f).name = f.name := by
+theorem original_name (sc : Scope) (f : Fn) :
+    (original sc f).name = f.name ∧ (original sc f).isCtor = f.isCtor := by
   unfold original; repeat' split
-  all_goals rfl
+  all_goals exact ⟨rfl, rfl⟩
 
-/-- Every record of the expansion carries the name of one of the declarations. -/
-theorem expand_name_mem (sc : Scope) (fs : List Fn) :
-    ∀ r ∈ expand sc fs, ∃ f ∈ fs, r.name = f.name := by
+theorem numberVariants_mem : ∀ (l : List Rec) (i : Nat), ∀ r ∈ numberVariants i l,
+    ∃ r0 ∈ l, r.name = r0.name ∧ r.isCtor = r0.isCtor := by
+  intro l
+  induction l with
+  | nil => intro _ r h; simp [numberVariants] at h
+  | cons a l ih =>
+    intro i r h
+    simp only [numberVariants, List.mem_cons] at h
+    rcases h with rfl | h
+    · refine ⟨a, by simp, ?_⟩
+      split <;> exact ⟨rfl, rfl⟩
+    · obtain ⟨r0, h0, e⟩ := ih _ r h
+      exact ⟨r0, by simp [h0], e⟩
+
+theorem stage1Fn_mem (sc : Scope) (f : Fn) :
+    ∀ r ∈ stage1Fn sc f, r.name = f.name ∧ r.isCtor = f.isCtor := by
+  intro r hr
+  unfold stage1Fn at hr
+  split at hr
+  · simp only [List.mem_append, List.mem_map] at hr
+    rcases hr with ⟨k, _, rfl⟩ | hr
+    · exact ⟨rfl, rfl⟩
+    · split at hr
+      · simp only [List.mem_cons, List.not_mem_nil, or_false] at hr
+        rcases hr with rfl | rfl <;> exact original_name sc f
+      · simp at hr; rw [hr]; exact original_name sc f
+  · split at hr
+    · simp only [List.mem_cons] at hr
+      rcases hr with rfl | hr
+      · exact ⟨rfl, rfl⟩
+      · exact templateClones_name _ _ _ _ r hr
+    · simp only [List.mem_cons, List.mem_flatMap] at hr
+      rcases hr with rfl | ⟨c, hc, hr⟩
+      · exact ⟨rfl, rfl⟩
+      · have hcn := templateClones_name _ _ _ _ c hc
+        obtain ⟨r0, h0, e⟩ := numberVariants_mem _ _ r hr
+        simp only [List.mem_append, List.mem_map, List.mem_singleton] at h0
+        rcases h0 with ⟨k, _, rfl⟩ | rfl
+        · exact ⟨e.1.trans hcn.1, e.2.trans hcn.2⟩
+        · have : (variantLast f c).name = c.name ∧ (variantLast f c).isCtor = c.isCtor := by
+            unfold variantLast; split <;> exact ⟨rfl, rfl⟩
+          exact ⟨e.1.trans (this.1.trans hcn.1), e.2.trans (this.2.trans hcn.2)⟩
+
+/-- Every record of the expansion carries the name (and constructor flag) of one of the
+    declarations. -/
+theorem expand_mem (sc : Scope) (fs : List Fn) :
+    ∀ r ∈ expand sc fs, ∃ f ∈ fs, r.name = f.name ∧ r.isCtor = f.isCtor := by
   intro r hr
   unfold expand at hr
   simp only [List.mem_flatMap] at hr
   obtain ⟨r1, ⟨r2, hr2, hr1⟩, hr⟩ := hr
-  have h1 : r.name = r1.name := by
+  have h1 : r.name = r1.name ∧ r.isCtor = r1.isCtor := by
     unfold genericRec at hr
     split at hr
     · simp only [List.mem_cons, List.mem_map] at hr
-      rcases hr with rfl | ⟨g, _, rfl⟩ <;> rfl
-    · simp at hr; rw [hr]
-  have h2 : r1.name = r2.name := by
+      rcases hr with rfl | ⟨g, _, rfl⟩ <;> exact ⟨rfl, rfl⟩
+    · simp at hr; rw [hr]; exact ⟨rfl, rfl⟩
+  have h2 : r1.name = r2.name ∧ r1.isCtor = r2.isCtor := by
     unfold bufferifyRec at hr1
     split at hr1
     · simp only [List.mem_cons, List.not_mem_nil, or_false] at hr1
-      rcases hr1 with rfl | rfl <;> rfl
-    · simp at hr1; rw [hr1]
+      rcases hr1 with rfl | rfl <;> exact ⟨rfl, rfl⟩
+    · simp at hr1; rw [hr1]; exact ⟨rfl, rfl⟩
   obtain ⟨r3, hr3, i, _, e⟩ := mem_numberAux (all := stage1 sc fs) _ [] hr2
-  have h3 : r2.name = r3.name := by rw [e]; simp
+  have h3 : r2.name = r3.name ∧ r2.isCtor = r3.isCtor := by
+    rw [e]; refine ⟨by simp, ?_⟩
+    unfold renumber; repeat' split
+    all_goals rfl
   unfold stage1 at hr3
   simp only [List.mem_flatMap] at hr3
   obtain ⟨f, hf, hr3⟩ := hr3
   refine ⟨f, hf, ?_⟩
-  rw [h1, h2, h3]
-  unfold stage1Fn at hr3
-  simp only [List.mem_append, List.mem_map] at hr3
-  rcases hr3 with ⟨k, _, rfl⟩ | hr3
-  · rfl
-  · split at hr3
-    · simp at hr3; rw [hr3, original_name]
-    · simp only [List.mem_cons] at hr3
-      rcases hr3 with rfl | hr3
-      · exact original_name sc f
-      · rw [templateClones_name _ _ _ _ r3 hr3, original_name]
+  rw [h1.1, h2.1, h3.1, h1.2, h2.2, h3.2]
+  exact stage1Fn_mem sc f r3 hr3
+
+theorem expand_name_mem (sc : Scope) (fs : List Fn) :
+    ∀ r ∈ expand sc fs, ∃ f ∈ fs, r.name = f.name := by
+  intro r hr
+  obtain ⟨f, hf, h, _⟩ := expand_mem sc fs r hr
+  exact ⟨f, hf, h⟩
 
 /-- All C names one scope emits. -/
 def cNamesOf (p : Scope × List Fn) : List Str :=
@@ -576,6 +714,253 @@ theorem program_c_names_distinct' (P : List (Scope × List Fn))
 example : ScopesSep [(exScope, exFns), ({ exScope with cScope := "ns2_".toList }, exFns)] := by
   unfold ScopesSep
   decide +kernel
+
+/-! ### one Fortran module: the scopes folded into it -/
+
+/-- All Fortran specific names one scope emits. -/
+def fNamesOf (p : Scope × List Fn) : List Str :=
+  ((expand p.1 p.2).filter (fun r => r.wrap.f)).map (fImpl p.1)
+
+/-- Scopes of one module are separated: `F_name_scope ++ underscore_name` of a declaration of one
+    scope (library level: empty scope; flattened namespace `ns_`; class `cls_`) is never a
+    prefix of that of a declaration of another scope. -/
+def FScopesSep (M : List (Scope × List Fn)) : Prop :=
+  M.Pairwise fun a b => ∀ f ∈ a.2, ∀ g ∈ b.2,
+    ¬ (a.1.fScope ++ unCamel f.name <+: b.1.fScope ++ unCamel g.name)
+    ∧ ¬ (b.1.fScope ++ unCamel g.name <+: a.1.fScope ++ unCamel f.name)
+
+/-- **(b) Fortran specifics of a module.**  The specific procedures of all scopes folded into
+    one Fortran module (library-level functions, flattened namespaces, classes) are pairwise
+    distinct. -/
+theorem module_specifics_distinct (M : List (Scope × List Fn))
+    (each : ∀ p ∈ M, FortranOK (stage1 p.1 p.2)) (sep : FScopesSep M) :
+    (M.flatMap fNamesOf).Nodup := by
+  unfold List.Nodup
+  rw [List.pairwise_flatMap]
+  refine ⟨fun p hp => ?_, sep.imp ?_⟩
+  · have := expand_f_names_nodup p.1.fScope p.1 p.2 (each p hp)
+    unfold fNamesOf
+    rw [fImpl_eq_nameWith]; exact this
+  · intro a b hsep x hx y hy
+    unfold fNamesOf at hx hy
+    simp only [List.mem_map, List.mem_filter] at hx hy
+    obtain ⟨r1, ⟨hr1, _⟩, rfl⟩ := hx
+    obtain ⟨r2, ⟨hr2, _⟩, rfl⟩ := hy
+    obtain ⟨f, hf, e1⟩ := expand_name_mem _ _ r1 hr1
+    obtain ⟨g, hg, e2⟩ := expand_name_mem _ _ r2 hr2
+    rw [(f_names_predictable a.1 r1).1, (f_names_predictable b.1 r2).1, e1, e2]
+    obtain ⟨n1, n2⟩ := hsep f hf g hg
+    have := append_ne_of_not_prefix (t1 := r1.sfx ++ r1.tsfx) (t2 := r2.sfx ++ r2.tsfx) n1 n2
+    intro h
+    exact this (by simpa [List.append_assoc] using h)
+
+theorem tableAdd_keys (k v : Str) (t : List (Str × List Str)) :
+    (tableAdd k v t).map (·.1) = if k ∈ t.map (·.1) then t.map (·.1) else t.map (·.1) ++ [k] := by
+  induction t with
+  | nil => simp [tableAdd]
+  | cons p t ih =>
+    obtain ⟨k', vs⟩ := p
+    by_cases h : k' = k
+    · subst h; simp [tableAdd]
+    · have h' : ¬ k = k' := fun e => h e.symm
+      by_cases hm : k ∈ t.map (·.1)
+      · simp [tableAdd, h, h', ih, hm]
+      · simp [tableAdd, h, h', ih, hm]
+
+theorem genericTable_keys (sc : Scope) (sel : Rec → Bool) (recs : List Rec) :
+    ∀ t : List (Str × List Str), (t.map (·.1)).Nodup →
+      ((genericTable sc sel recs t).map (·.1)).Nodup
+      ∧ ∀ k ∈ (genericTable sc sel recs t).map (·.1),
+          k ∈ t.map (·.1) ∨ ∃ r ∈ recs, sel r = true ∧ k = genericKey sc r := by
+  induction recs with
+  | nil => intro t ht; exact ⟨ht, fun k hk => Or.inl hk⟩
+  | cons r recs ih =>
+    intro t ht
+    simp only [genericTable]
+    split
+    · rename_i hc
+      simp only [Bool.and_eq_true] at hc
+      have hn : ((tableAdd (genericKey sc r) (genericMember sc r) t).map (·.1)).Nodup := by
+        rw [tableAdd_keys]
+        split
+        · exact ht
+        · rename_i hm
+          rw [List.nodup_append]
+          exact ⟨ht, by simp, by intro a ha b hb; simp at hb; subst hb; exact fun e => hm (e ▸ ha)⟩
+      obtain ⟨h1, h2⟩ := ih _ hn
+      refine ⟨h1, fun k hk => ?_⟩
+      rcases h2 k hk with h | ⟨r', hr', hs, e⟩
+      · rw [tableAdd_keys] at h
+        split at h
+        · exact Or.inl h
+        · simp only [List.mem_append, List.mem_singleton] at h
+          rcases h with h | h
+          · exact Or.inl h
+          · exact Or.inr ⟨r, by simp, hc.2, h⟩
+      · exact Or.inr ⟨r', by simp [hr'], hs, e⟩
+    · obtain ⟨h1, h2⟩ := ih t ht
+      refine ⟨h1, fun k hk => ?_⟩
+      rcases h2 k hk with h | ⟨r', hr', hs, e⟩
+      · exact Or.inl h
+      · exact Or.inr ⟨r', by simp [hr'], hs, e⟩
+
+/-- Names of the generic interfaces a scope files in the module table (a superset of those
+    printed: an interface is printed when it has two members or is forced). -/
+def gKeysOf (p : Scope × List Fn) : List Str :=
+  (genericTable p.1 (moduleLevel p.1) (expand p.1 p.2) []).map (·.1)
+
+/-- **(b) generic interface names of a module.**  The interface names of the scopes that hold
+    free functions (library level and flattened namespaces) are pairwise distinct: one per
+    C++ name inside a scope, scope-prefixed across scopes. -/
+theorem module_generic_keys_distinct (M : List (Scope × List Fn))
+    (free : ∀ p ∈ M, p.1.isClass = false ∧ ∀ f ∈ p.2, f.isCtor = false) (sep : FScopesSep M) :
+    (M.flatMap gKeysOf).Nodup := by
+  have form : ∀ p ∈ M, ∀ k ∈ gKeysOf p, ∃ f ∈ p.2, k = p.1.fScope ++ unCamel f.name := by
+    intro p hp k hk
+    rcases (genericTable_keys p.1 (moduleLevel p.1) (expand p.1 p.2) [] (by simp)).2 k hk with h | ⟨r, hr, _, e⟩
+    · simp at h
+    · obtain ⟨f, hf, hn, hc⟩ := expand_mem _ _ r hr
+      refine ⟨f, hf, ?_⟩
+      have hc' : r.isCtor = false := by rw [hc]; exact (free p hp).2 f hf
+      rw [e]
+      simp [genericKey, (free p hp).1, fGeneric, hc', evalTemplate, F_name_generic_template, Rec.env,
+        Env.get, hn]
+  unfold List.Nodup
+  rw [List.pairwise_flatMap]
+  refine ⟨fun p _ => (genericTable_keys p.1 _ _ [] (by simp)).1, ?_⟩
+  have sep' : M.Pairwise fun a b => a ∈ M ∧ b ∈ M ∧ ∀ f ∈ a.2, ∀ g ∈ b.2,
+      ¬ (a.1.fScope ++ unCamel f.name <+: b.1.fScope ++ unCamel g.name)
+      ∧ ¬ (b.1.fScope ++ unCamel g.name <+: a.1.fScope ++ unCamel f.name) :=
+    sep.imp_of_mem (fun ha hb h => ⟨ha, hb, h⟩)
+  refine sep'.imp ?_
+  intro a b ⟨ha, hb, hsep⟩ x hx y hy
+  obtain ⟨f, hf, rfl⟩ := form a ha x hx
+  obtain ⟨g, hg, rfl⟩ := form b hb y hy
+  obtain ⟨n1, n2⟩ := hsep f hf g hg
+  intro h
+  exact n1 ⟨[], by simpa using h⟩
+
+/-- **(b) module entities, partial.**  Specific procedures, generic interface names and the
+    remaining entities of a module (`extra`: derived types, enumeration parameters) are pairwise
+    distinct, given that no interface name equals a specific and that the extra names are
+    distinct from each other and from both.  Missing for the full statement: deriving "no
+    interface name equals a specific" from the suffix hypotheses (it needs non-empty generic and
+    template suffixes), and a model of derived-type and enumeration names (not modelled; their
+    documented prefixes `F_name_scope`/class name are taken as the side condition). -/
+theorem module_entities_distinct_partial (M : List (Scope × List Fn)) (extra : List Str)
+    (each : ∀ p ∈ M, FortranOK (stage1 p.1 p.2))
+    (free : ∀ p ∈ M, p.1.isClass = false ∧ ∀ f ∈ p.2, f.isCtor = false) (sep : FScopesSep M)
+    (hk : ∀ k ∈ M.flatMap gKeysOf, k ∉ M.flatMap fNamesOf)
+    (hx : extra.Nodup ∧ ∀ e ∈ extra, e ∉ M.flatMap fNamesOf ∧ e ∉ M.flatMap gKeysOf) :
+    (M.flatMap fNamesOf ++ (M.flatMap gKeysOf ++ extra)).Nodup := by
+  rw [List.nodup_append]
+  refine ⟨module_specifics_distinct M each sep, ?_, ?_⟩
+  · rw [List.nodup_append]
+    exact ⟨module_generic_keys_distinct M free sep, hx.1,
+      fun a ha b hb e => (hx.2 b hb).2 (e ▸ ha)⟩
+  · intro a ha b hb e
+    simp only [List.mem_append] at hb
+    rcases hb with hb | hb
+    · exact hk b hb (e ▸ ha)
+    · exact (hx.2 b hb).1 (e ▸ ha)
+
+/-! ### class template instantiation -/
+
+/-- **(d) predictability of the class scope.**  The `i`-th instantiation of a class template
+    `name` is wrapped as the class `name ++ class_suffix`; its members get
+    `C_name_scope = parent ++ name ++ class_suffix ++ "_"`, the lower-cased form for Fortran, and
+    inherit an explicit `template_suffix`. -/
+theorem class_instantiation_scope (pre : Str) (w0 : Wrap) (n : Str) (t : TInst) (i : Nat) (sc : Scope) :
+    let sc' := scopeOf pre w0 [.clsT n t i] sc
+    sc'.cScope = sc.cScope ++ (n ++ t.classSuffix i) ++ ['_']
+    ∧ sc'.fScope = sc.fScope ++ lower (n ++ t.classSuffix i) ++ ['_']
+    ∧ sc'.derived = lower (n ++ t.classSuffix i)
+    ∧ sc'.isClass = true
+    ∧ sc'.tsfx0 = t.explicit.getD sc.tsfx0 := by
+  cases h : t.explicit <;> simp [scopeOf, h]
+
+/-- **(b) instantiations of one class template are separated scopes.**  When the class
+    suffixes of two instantiations are different single `_token`s (`_int`, `_double`, `_0`,
+    an explicit `_dbl`), no name of one instantiation's scope is a prefix of a name of the
+    other's, whatever the member names: the hypothesis `ScopesSep` holds between them. -/
+theorem class_instantiations_separated (p n s1 s2 u1 u2 : Str)
+    (h1 : isTok s1 = true) (h2 : isTok s2 = true) (hne : s1 ≠ s2) :
+    ¬ (p ++ (n ++ s1) ++ ['_'] ++ u1 <+: p ++ (n ++ s2) ++ ['_'] ++ u2) := by
+  rintro ⟨t, ht⟩
+  simp only [List.append_assoc] at ht
+  have ht := List.append_cancel_left (List.append_cancel_left ht)
+  exact hne (tok_cancel (x := ['_'] ++ (u1 ++ t)) (y := ['_'] ++ u2) h1 h2 rfl rfl ht)
+
+/-- Members of a class template that use the template parameter (`template_function2`) are
+    not numbered: two such overloads get the same name (outside the domain `CoreOK`). -/
+theorem class_template_overloads_clash :
+    ¬ (((core exScope [{ exFn "push" 1 0 none with usesT := true },
+                       { exFn "push" 2 0 none with usesT := true }]).filter
+          (fun r => r.wrap.c)).map (cName exScope)).Nodup := by
+  decide +kernel
+
+/-! ### Python and Lua method tables -/
+
+/-- Hypothesis for the Python table: C++ names of different Python-wrapped functions of the
+    scope are not prefixes of one another (keys are `function_name ++ suffixes`). -/
+def PyNamesPF (recs : List Rec) : Prop :=
+  ∀ a ∈ recs, ∀ b ∈ recs, a.wrap.py = true → b.wrap.py = true → a.name ≠ b.name → ¬ (a.name <+: b.name)
+
+/-- **(b) `PyMethodDef` keys.**  The keys of the method table of a scope (single wrappers
+    under `function_name ++ function_suffix ++ template_suffix`, one multi-dispatch entry per
+    overloaded or multiply instantiated name) are pairwise distinct. -/
+theorem py_table_keys_distinct (recs : List Rec) (pf : PyNamesPF recs) : (pyTable recs).Nodup := by
+  unfold pyTable
+  rw [List.nodup_append]
+  refine ⟨?_, ?_, ?_⟩
+  · -- single wrappers
+    have hn := single_names_nodup recs
+    unfold List.Nodup at hn ⊢
+    rw [List.pairwise_map] at hn ⊢
+    refine hn.imp_of_mem ?_
+    intro a b ha hb hne
+    have ha' := List.mem_filter.1 ha
+    have hb' := List.mem_filter.1 hb
+    simp only [pySingle, Bool.and_eq_true] at ha' hb'
+    unfold pyKey
+    exact append_ne_of_not_prefix (pf a ha'.1 b hb'.1 ha'.2.1.1 hb'.2.1.1 hne)
+      (pf b hb'.1 a ha'.1 hb'.2.1.1 ha'.2.1.1 (Ne.symm hne))
+  · exact (dedup_nodup _).sublist List.filter_sublist
+  · -- a single wrapper's key is not a dispatcher's name
+    intro x hx y hy hxy
+    simp only [List.mem_map] at hx
+    obtain ⟨a, ha, rfl⟩ := hx
+    have ha' := List.mem_filter.1 ha
+    simp only [pySingle, Bool.and_eq_true, beq_iff_eq] at ha'
+    unfold pyDispatch at hy
+    have hy' := List.mem_filter.1 hy
+    have hmem := mem_dedup hy'.1
+    simp only [List.mem_map, List.mem_filter, Bool.and_eq_true] at hmem
+    obtain ⟨b, ⟨hb, hbp⟩, rfl⟩ := hmem
+    have hcnt : pyCount recs b.name ≥ 2 := by simpa using hy'.2
+    have hne : a.name ≠ b.name := by
+      intro e; rw [e] at ha'; omega
+    have := append_ne_of_not_prefix (t1 := (if a.hasDefault then [] else a.sfx) ++ a.tsfx) (t2 := [])
+      (pf a ha'.1 b hb ha'.2.1.1 hbp.1 hne) (pf b hb a ha'.1 hbp.1 ha'.2.1.1 (Ne.symm hne))
+    exact this (by simpa [pyKey] using hxy)
+
+/-- **(b) `luaL_Reg` keys.**  A scope contributes one entry per C++ name. -/
+theorem lua_table_keys_distinct (recs : List Rec) : (luaTable recs).Nodup := dedup_nodup _
+
+/-- The multi-dispatch entry carries neither function nor template suffix (seed C08-r2-3): every
+    dispatcher key is the C++ name of a Python-wrapped function of the scope. -/
+theorem py_dispatch_keys_are_names (recs : List Rec) :
+    ∀ k ∈ pyDispatch recs, ∃ r ∈ recs, r.wrap.py = true ∧ k = r.name := by
+  intro k hk
+  have hmem := mem_dedup (List.mem_filter.1 hk).1
+  simp only [List.mem_map, List.mem_filter, Bool.and_eq_true] at hmem
+  obtain ⟨b, ⟨hb, hbp⟩, rfl⟩ := hmem
+  exact ⟨b, hb, hbp.1, rfl⟩
+
+example : pyTable (expand { exScope with w0 := ⟨true, true, true, true⟩ } exFns2)
+    = ["get", "str", "gen", "fooBar", "tmpl"].map String.toList := by decide +kernel
+example : PyNamesPF (expand { exScope with w0 := ⟨true, true, true, true⟩ } exFns2) := by
+  unfold PyNamesPF; decide +kernel
 
 /-- **(c) generic interfaces and type-bound generics.**  The table built while wrapping
     (per module for interfaces, per class for `generic ::` bindings) lists, under every key,
